@@ -11,7 +11,10 @@ var (
 	envCIUpd    = map[string]string{"CI": "true", "UPDATE_SNAPS": "true"}
 	envCIClean  = map[string]string{"CI": "true", "UPDATE_SNAPS": "clean"}
 	envCIfalse  = map[string]string{"CI": "false"}
-	allEnvs     = []map[string]string{envOff, envCI, envUpd, envClean, envOther, envCIUpd, envCIClean, envCIfalse}
+	envVendor   = map[string]string{"GITHUB_ACTIONS": "true", "UPDATE_SNAPS": "true"}
+	envNeutral  = map[string]string{"RUN_ID": "", "UPDATE_SNAPS": "clean"}
+	envNotCI    = map[string]string{"CI": "false", "TRAVIS": "true", "UPDATE_SNAPS": "clean"}
+	allEnvs     = []map[string]string{envOff, envCI, envUpd, envClean, envOther, envCIUpd, envCIClean, envCIfalse, envVendor, envNeutral, envNotCI}
 	readOnlyEnv = []map[string]string{envOff, envCI, envClean, envOther, envCIUpd}
 )
 
@@ -91,6 +94,7 @@ func Preset(prop string, adversarial bool, r *scen.Rand) *Params {
 		p.CleanP = 0.6
 		p.SortP = 0.4
 		p.PreFilesP = 0.3
+		p.PreCorruptP = 0.1 // on CI nothing is written, whatever state the files are in
 		p.APIw = allAPIs(3, 2)
 		p.ReplayP = 0.3
 	case "C06":
@@ -216,6 +220,7 @@ func Preset(prop string, adversarial bool, r *scen.Rand) *Params {
 		p.TasksP = 0.3
 		p.FaultP = 0.5
 		p.KillP = 0.1
+		p.PreCorruptP = 0.15
 		p.ReplayP = 0.5
 		p.CleanAgainP = 0.5
 	}
